@@ -130,15 +130,16 @@ def _run_alpha(args):
     import collections
 
     from .driver import analyse
-    from .metamorph import alpha_rename_tree, insert_noop_tree
+    from .metamorph import alpha_rename_tree, extract_returns_tree, insert_noop_tree
 
     prop, repo_root, which = args
     name = {"alpha": "twin: every local variable renamed, package re-emitted without comments (metamorphic)",
-            "noop": "twin: a new local at the top of every function and an unused helper in every module (metamorphic)"}[which]
+            "noop": "twin: a new local at the top of every function and an unused helper in every module (metamorphic)",
+            "ret": "twin: every returned expression first bound to a local (extract-variable, metamorphic)"}[which]
     tmp = tempfile.mkdtemp(prefix="irpy-sa-")
     try:
         _copy_tree(repo_root, tmp)
-        stats = alpha_rename_tree(tmp) if which == "alpha" else insert_noop_tree(tmp)
+        stats = {"alpha": alpha_rename_tree, "noop": insert_noop_tree, "ret": extract_returns_tree}[which](tmp)
         try:
             a, _ = analyse(prop, repo_root, "quick")
             b, _ = analyse(prop, tmp, "quick")
@@ -164,12 +165,10 @@ def run(prop: str, repo_root: str) -> dict:
         return {"variants": 0, "note": "no self-test variants registered for this property"}
     base = _findings(prop, repo_root)
     jobs = [(prop, repo_root, i, base) for i in range(len(vs))]
-    with multiprocessing.Pool(min(16, len(jobs) + 2)) as pool:
-        alpha = pool.apply_async(_run_alpha, ((prop, repo_root, "alpha"),))
-        noop = pool.apply_async(_run_alpha, ((prop, repo_root, "noop"),))
+    with multiprocessing.Pool(min(16, len(jobs) + 3)) as pool:
+        twins = [pool.apply_async(_run_alpha, ((prop, repo_root, w),)) for w in ("alpha", "noop", "ret")]
         results = pool.map(_run_one, jobs)
-        results.append(alpha.get())
-        results.append(noop.get())
+        results += [t.get() for t in twins]
     summary = {"variants": len(results), "results": [{"name": n, "verdict": s, "detail": d} for n, s, d in results]}
     bad = [r for r in results if r[1] in ("MISSED", "FALSE-ALARM", "broken-variant", "twin-analysis-error")]
     na = [r for r in results if r[1] == "not-applicable"]
